@@ -172,4 +172,16 @@ PROPS = {
         "assumptions": ["ASan shadow granularity is 8 bytes: single-float neighbours of a view are covered by the sentinel comparison and the page monitor instead",
                         "verdict covers only the executions sampled"],
     },
+    "C11": {
+        "units": [{"name": "c11_a", "src": "harness/c11.cpp", "defs": ["-DTS=0"], "flavor": "asan", "shards": {"quick": 8, "thorough": 16}},
+                  {"name": "c11_b", "src": "harness/c11.cpp", "defs": ["-DTS=1"], "flavor": "asan", "shards": {"quick": 8, "thorough": 16}}],
+        "rule": "cases = (basis, u, differences) per (degree K, group): K = 1..6 for SO3 and SE3, {1,3,5} SE2, {3,6} R3, {2,4} Bundle<SO3,R2>; bases: "
+                "harness-built cumulative Bernstein and B-spline matrices and random matrices; u in {0, 1, 1e-9, 1-1e-9, interior}; differences from "
+                "0 / 1e-12..1e-6 / switch band / moderate; every third case also checks the six Jacobians; distinct = distinct (basis,u,vs); "
+                "non-trivial = some rotation part non-zero",
+        "floors": {"min_evaluations": {"quick": 15000, "thorough": 400000},
+                   "cells": [r"SE3d\.K6\.vs\.jerk", r"SO3d\.K1\.gs\.value", r"B<SO3d,R2d>\.K4\.dacc_dgs", r"SE2d\.K5\.dg_dvs", r"R3d\.K6\.gs\.acc", r"\.vs\.value\|bspline,u:1,"]},
+        "assumptions": ["oracle curve = product of long-double matrix exponentials; derivatives by matrix jets (order 3); Jacobians by 4th-order central differences "
+                        "of that oracle in long double (h = 1e-3)", "verdict covers only the executions sampled"],
+    },
 }
